@@ -128,14 +128,31 @@ func (ex *Exec) condWait(c Ptr, site token.Pos) {
 }
 
 func (ex *Exec) sleep(d *Term) {
+	if ex.sleepWeak {
+		ex.event("sleep")
+		return
+	}
 	if ex.clock == nil {
 		ex.clock = ex.tc.Const(64, 0)
 	}
-	extra := ex.fresh("clk", 64)
-	ex.assume(ex.tc.Cmp(OUlt, extra, ex.tc.Const(64, 1<<40)), "")
-	// d is in nanoseconds (time.Duration); the virtual clock is in milliseconds
-	ms := ex.tc.Bin(OSDiv, d, ex.tc.Const(64, 1000000))
-	ex.clock = ex.tc.Bin(OAdd, ex.clock, ex.tc.Bin(OAdd, ms, extra))
+	// d is in nanoseconds (time.Duration); the virtual clock is in milliseconds. The next
+	// ClockNow() must return at least clock + d: no input is created here, so the native
+	// twin (which really sleeps) consumes the same input sequence.
+	var ms *Term
+	if d.op == OMul && d.args[1].IsConst() && d.args[1].val == 1000000 {
+		ms = d.args[0] // x * time.Millisecond (assumed not to overflow int64)
+	} else if d.op == OMul && d.args[0].IsConst() && d.args[0].val == 1000000 {
+		ms = d.args[1]
+	} else {
+		ms = ex.tc.Bin(OSDiv, d, ex.tc.Const(64, 1000000))
+	}
+	pos := ex.tc.Cmp(OSlt, ex.tc.Const(64, 0), ms)
+	ms = ex.tc.Ite(pos, ms, ex.tc.Const(64, 0))
+	base := ex.clock
+	if ex.clockMin != nil {
+		base = ex.clockMin
+	}
+	ex.clockMin = ex.tc.Bin(OAdd, base, ms)
 	ex.event("sleep")
 }
 
